@@ -645,8 +645,9 @@ Theorem mapping_equiv rq rm p : Forall (fun i => 0 <= i < zlen rm) p ->
 Proof.
   intros Hp. unfold mask_mapping, ref_mapping. f_equal.
   - unfold enc_query. cbn [qu_atoms]. rewrite map_map.
-    rewrite <- (map_fst_combine rq (q_from_to rq 0)) at 2 by (rewrite q_from_to_length; reflexivity).
-    rewrite map_map. apply map_ext. intros [e [f t]]. reflexivity.
+    transitivity (map rq_num (map fst (combine rq (q_from_to rq 0)))).
+    + rewrite (map_map fst rq_num). apply map_ext. intros [e [f t]]. reflexivity.
+    + rewrite map_fst_combine by (rewrite q_from_to_length; reflexivity). reflexivity.
   - apply map_ext_in. intros i Hi. rewrite Forall_forall in Hp. destruct (enc_mol_atom rm i (Hp i Hi)) as [_ [E _]]. exact E.
 Qed.
 
